@@ -8,13 +8,13 @@ from common import Infra
 LEVEL = "model_checking"
 
 # family -> (quick sample size, thorough sample size)  (only used by the sampled "deep" families)
-FAMILIES = {"src1": (0, 0), "src2": (150, 1500), "dst1": (0, 0), "dst2": (60, 600), "prog2": (0, 0), "prog": (0, 0), "pct": (0, 0), "collide": (0, 0), "corrupt": (20000, 300000)}
+FAMILIES = {"src1": (0, 0), "src2": (150, 1500), "dst1": (0, 0), "dst2": (60, 600), "prog2": (0, 0), "prog": (0, 0), "pct": (0, 0), "collide": (0, 0), "src3": (0, 0), "corrupt": (20000, 300000)}
 
 PROPS = {
-    "C01": dict(families=["src1", "src2", "prog2", "prog", "collide"], invs=["C01_NeverOverdrawn", "C01_RejectedWhole"]),
-    "C03": dict(families=["dst1", "dst2", "src1", "pct"], invs=["C03_NoNegative", "C03_PerDestination", "C03_PerSource", "C03_Amount"]),
-    "C08": dict(families=["src1", "src2", "dst1", "dst2", "prog2", "prog", "pct", "collide"], invs=["C08_SameAsSource", "C08_SameMetadata", "C08_RefusedNotRun", "C08_BigValues"]),
-    "C12": dict(families=["src1", "src2", "dst1", "dst2", "prog2", "prog", "pct", "collide", "corrupt"], invs=["C12_NoPanicNoHang", "C12_DefinedClass", "C12_Repeatable"]),
+    "C01": dict(families=["src1", "src2", "src3", "prog2", "prog", "collide"], invs=["C01_NeverOverdrawn", "C01_RejectedWhole"]),
+    "C03": dict(families=["dst1", "dst2", "src1", "src3", "pct"], invs=["C03_NoNegative", "C03_PerDestination", "C03_PerSource", "C03_Amount"]),
+    "C08": dict(families=["src1", "src2", "src3", "dst1", "dst2", "prog2", "prog", "pct", "collide"], invs=["C08_SameAsSource", "C08_SameMetadata", "C08_RefusedNotRun", "C08_BigValues"]),
+    "C12": dict(families=["src1", "src2", "src3", "dst1", "dst2", "prog2", "prog", "pct", "collide", "corrupt"], invs=["C12_NoPanicNoHang", "C12_DefinedClass", "C12_Repeatable"]),
 }
 
 
@@ -193,7 +193,7 @@ def cache_part(ctx, binp):
     """C08, last sentence: the compilation cache under every capacity and concurrent use."""
     thorough = ctx.tier == "thorough"
     cases = ctx.path("cache-cases.ndjson")
-    g = ctx.tlc("Cache", "SPECIFICATION Spec\nCONSTANTS\n  Texts = {\"t1\", \"t2\", \"t3\", \"t4\"}\n  Caps = {1, 2, 3, 1024}\n  MaxLen = %d\n  OutFile = \"%s\"\nINVARIANTS SameAsFresh Bounded\nPOSTCONDITION Emit\nCHECK_DEADLOCK FALSE\n" % (5 if thorough else 4, cases),
+    g = ctx.tlc("Cache", "SPECIFICATION Spec\nCONSTANTS\n  Texts = {\"t1\", \"t2\", \"t3\", \"t4\", \"t5\", \"t6\"}\n  Caps = {1, 2, 3, 1024}\n  MaxLen = %d\n  OutFile = \"%s\"\nINVARIANTS SameAsFresh Bounded\nPOSTCONDITION Emit\nCHECK_DEADLOCK FALSE\n" % (5 if thorough else 4, cases),
                 "cache", workers=4, timeout=900)
     if g["status"] != "ok":
         raise Infra("Cache.tla failed (%s)" % g["status"])
